@@ -754,6 +754,8 @@ enum Nd {
     Probe,
     SlotProbe,
     If(Vec<Nd>, Vec<Nd>),
+    /// the condition is false: the else branch renders
+    Else(Vec<Nd>, Vec<Nd>, Vec<Nd>),
     Call(&'static str, Vec<(&'static str, E)>),
 }
 struct Shape {
@@ -823,6 +825,7 @@ fn shape_src(nodes: &[Nd], pe: &str) -> String {
             Nd::Probe => s += &format!("<p {}/>", attr("v", pe)),
             Nd::SlotProbe => s += &format!("<slot {}/>", attr("v", pe)),
             Nd::If(a, b) => s += &format!("<block wx:if=\"{{{{ $t }}}}\">{}</block><block wx:else>{}</block>", shape_src(a, pe), shape_src(b, pe)),
+            Nd::Else(a, b, c) => s += &format!("<block wx:if=\"{{{{ $z }}}}\">{}</block><block wx:elif=\"{{{{ $n }}}}\">{}</block><block wx:else>{}</block>", shape_src(a, pe), shape_src(b, pe), shape_src(c, pe)),
             Nd::Call(name, data) => s += &format!("<template is=\"{}\" data=\"{{{{ {} }}}}\"/>", name, data.iter().map(|(k, e)| format!("{}: {}", k, src(e, false))).collect::<Vec<_>>().join(", ")),
             Nd::El { tag, f, slots, own, kids } => {
                 s += &format!("<{}", tag);
@@ -850,6 +853,7 @@ fn shape_ref(sh: &Shape, nodes: &[Nd], sc: &Vec<(String, String)>, ptag: Option<
             Nd::Probe => if sel == 'p' { parts.push(format!("[{}]", rj(pe, sc))) },
             Nd::SlotProbe => if sel == 's' { parts.push(format!("[{}]", rj(pe, sc))) },
             Nd::If(a, _) => parts.push(shape_ref(sh, a, sc, ptag, ctr, sel, pe)),
+            Nd::Else(_, _, c) => parts.push(shape_ref(sh, c, sc, ptag, ctr, sel, pe)),
             Nd::Call(name, data) => {
                 // a <template name> body sees only the script modules; everything else is a field of the data it was given
                 let dataobj = format!("({{{}}})", data.iter().map(|(k, e)| format!("{}: {}", quote(k), rj(e, sc))).collect::<Vec<_>>().join(","));
@@ -914,6 +918,8 @@ fn shapes() -> Vec<Shape> {
         sh("slot-alias-is-sibling-key", vec![], vec![], vec![el("e1", vec![wslots(el("e2", vec![P]), vec![("a", Some("x"))]), wslots(el("e3", vec![P, wfor(blk(vec![P]), l0(), None, None)]), vec![("b", Some("a"))]), P])], vec!["a", "b", "x", "item"], vec![]),
         sh("slot-siblings-no-leak", vec![], vec![], vec![el("e1", vec![wslots(el("e2", vec![P]), vec![("a", None)]), el("e3", vec![P]), wslots(blk(vec![]), vec![("b", None)]), P]), wfor(blk(vec![P]), l0(), None, None), P], vec!["a", "b", "item", "index"], vec![]),
         sh("slot-then-for-after-parent", vec![], vec![], vec![el("e1", vec![el("e2", vec![wslots(el("e3", vec![]), vec![("a", None), ("c", Some("d"))])])]), wfor(blk(vec![P, wfor(blk(vec![P]), l0(), Some("q"), None)]), l0(), None, None), P], vec!["a", "d", "item", "index", "q"], vec![]),
+        sh("slot-under-else", vec![], vec![], vec![el("e1", vec![Nd::Else(vec![el("e4", vec![P])], vec![wslots(el("e5", vec![P]), vec![("b", None)])], vec![wslots(el("e2", vec![P, wfor(blk(vec![P]), l0(), None, None)]), vec![("a", None)])]), P])], vec!["item", "index", "a", "b"], vec![]),
+        sh("for-under-else", vec![], vec![], vec![wfor(blk(vec![Nd::Else(vec![P], vec![P], vec![P, wfor(blk(vec![P]), l0(), Some("q"), Some("r"))]), P]), l0(), None, None)], vec!["item", "index", "q", "r"], vec![]),
         sh("slot-under-if-and-for", vec![], vec![], vec![el("e1", vec![Nd::If(vec![wslots(el("e2", vec![P]), vec![("a", None)])], vec![]), wfor(blk(vec![wslots(el("e3", vec![P]), vec![("item", Some("index")), ("a", None)])]), l0(), None, None), P])], vec!["item", "index", "a"], vec![]),
         sh("slot-probe-in-for", vec![], vec![], vec![wfor(blk(vec![Nd::SlotProbe, el("e1", vec![wslots(blk(vec![Nd::SlotProbe]), vec![("a", None)])])]), l0(), None, None), Nd::SlotProbe], vec!["item", "index", "a"], vec![]),
         sh("modules", vec!["m", "item", "a"], vec![], vec![P, wfor(blk(vec![P]), l0(), None, None), wfor(blk(vec![P]), l0(), Some("m"), Some("a")), el("e1", vec![wslots(el("e2", vec![P]), vec![("a", None), ("k", Some("m"))])]), P], vec!["m", "item", "index", "a"], vec![]),
